@@ -82,14 +82,16 @@ def h(cfg):
     check_all(items)
 
 
-INHERIT = dict(sched.PLAIN, n=4, fixed_parent=[-1, -1, 1, -1], E=8, scenarios=[(0, -1)])
+INHERIT = dict(sched.PLAIN, n=4, fixed_parent=[-1, -1, 1, -1], E=8, scenarios=[(0, -1)])       # roots b, S{a}, x
+INHERIT_B = dict(sched.PLAIN, n=4, fixed_parent=[-1, -1, -1, 2], E=8, scenarios=[(0, -1)])     # roots x, b, S{a}
+SUMMARY_PRED = dict(sched.PLAIN, n=4, fixed_parent=[-1, 0, 0, -1], resources=['r', 'q'], E=8, scenarios=[(0, -1)])  # S{a, b}, x
 
 
 def harnesses(tier):
     hs = sched.standard_harnesses(h, tier, backward=False)
     for x in hs:
         if 'profiles' in x['cfg']:
-            x['cfg'] = dict(x['cfg'], profiles=dict(x['cfg']['profiles'], **{'n4-inherited': INHERIT}))
+            x['cfg'] = dict(x['cfg'], profiles=dict(x['cfg']['profiles'], **{'n4-inherited': INHERIT, 'n4-inherited-b': INHERIT_B, 'n4-summary-pred': SUMMARY_PRED}))
     if tier != 'quick':
         hs.append({'name': 'forward-n4-inherited-b', 'fn': h,
                    'cfg': dict(sched.PLAIN, n=4, fixed_parent=[-1, 0, -1, -1], E=8, scenarios=[(0, -1), (4, 0)])})
